@@ -46,7 +46,7 @@ def make_candles(kind, n, seed, scale=100.0, t0=T0):
         steps = np.zeros(n)
     elif kind == 'monotone':
         steps = np.full(n, 0.003)
-    elif kind in ('lattice', 'leading-zero-volume'):
+    elif kind in ('lattice', 'leading-zero-volume', 'gappy'):
         steps = rng.normal(0, 0.008, n)
     else:
         raise ValueError(kind)
@@ -61,6 +61,12 @@ def make_candles(kind, n, seed, scale=100.0, t0=T0):
     vol = np.abs(rng.normal(1000, 300, n)) + 1
     if kind == 'flatish':
         vol = np.where(steps == 0, 0.0, vol)
+    if kind == 'gappy':
+        # opens away from the previous close (weekend / illiquid gaps): the previous close lies outside many candles' ranges
+        gap = np.where(rng.random(n) < 0.3, rng.normal(0, 0.02, n), 0.0)
+        open_ = open_ * (1 + gap)
+        high = np.maximum(high, np.maximum(open_, close))
+        low = np.maximum(np.minimum(low, np.minimum(open_, close)), scale * 1e-6)
     if kind == 'lattice':
         # prices on a coarse grid: ties between highs/lows, symmetric outside bars, equal extremes are frequent
         g = scale * 0.0025
